@@ -358,6 +358,7 @@ type plan struct {
 	WaitEvery int       `json:"stress_wait_every,omitempty"`
 	Backlog   *backlog  `json:"backlog,omitempty"`         // backlog stress: Pkts is a cycle, Requests the method cycle
 	Cross     *cross    `json:"cross,omitempty"`           // cross-connection rounds: Transport is player B's, Pkts a cycle
+	Crowd     *crowd    `json:"crowd,omitempty"`           // several long-lived players and visitors that leave by TEARDOWN
 	UDP       string    `json:"udp_track,omitempty"`       // RTSP/TCP only: "video" | "audio" = this track is set up over UDP (RTP/AVP;unicast;client_port=), the other one interleaved
 	UDPFirst  bool      `json:"udp_setup_first,omitempty"` // the UDP track is set up first (then the session ends as a TCP player); otherwise last (it ends as a UDP player)
 }
@@ -758,6 +759,13 @@ func judge(obs *observed, exp *expectation, complete bool) *verdict {
 
 // splitStream applies the strict grammar to a whole byte string (anchor tests
 // and TCP cross-check of the collector).
+func schedNew() *sched.Injector { return sched.New(grace) }
+
+func isFraming(err error) bool {
+	_, ok := err.(*rtspc.FramingError)
+	return ok
+}
+
 func splitStream(b []byte) (*observed, []byte) {
 	obs := &observed{}
 	for len(b) > 0 {
